@@ -1,1 +1,10 @@
+//! Raw quinn peer speaking HTTP/3 + WebTransport through the reference codec, wire recorder,
+//! UDP relay and helpers to stand up wtransport endpoints on loop-back.
 
+pub mod peer;
+pub mod relay;
+pub mod wt;
+
+pub use peer::*;
+pub use relay::*;
+pub use wt::*;
